@@ -419,7 +419,7 @@ func C13(r *vf.Run) {
 
 	if r.Phase("histories") {
 		chunks := r.N(96, 6000)
-		vf.Parallel(runtime.NumCPU(), chunks, func(w, ci int) {
+		r.Parallel(runtime.NumCPU(), chunks, func(w, ci int) {
 			g := r.Rand("hist").Fork(uint64(ci))
 			cells := map[string]int64{}
 			for k := 0; k < 16 && !r.TooMany(); k++ {
